@@ -11,6 +11,7 @@ import (
 	"fmt"
 	"os"
 	"path/filepath"
+	"runtime"
 	"runtime/debug"
 	"sort"
 	"strconv"
@@ -108,6 +109,20 @@ func cmdCheck(args []string) (exit int) {
 		if r := recover(); r != nil {
 			exit = fail("analyzer panic", fmt.Sprintf("%v\n%s", r, debug.Stack()))
 		}
+	}()
+	// watchdog: an analysis that does not finish is a failed check with a diagnosable report, never a hang
+	limit := 20 * time.Minute
+	if *tier == "thorough" {
+		limit = 4 * time.Hour
+	}
+	if d, err := time.ParseDuration(os.Getenv("FRPSA_TIMEOUT")); err == nil && d > 0 {
+		limit = d
+	}
+	go func() {
+		time.Sleep(limit)
+		buf := make([]byte, 1<<20)
+		buf = buf[:runtime.Stack(buf, true)]
+		os.Exit(fail("analysis did not finish within "+limit.String(), string(buf)))
 	}()
 	p, err := engine.Load(engine.LoadOpts{Dir: *repo, Deps: *tier == "thorough" && pr.NeedDeps})
 	if err != nil {
